@@ -43,6 +43,7 @@ fn main() {
         "c17" => conc::run_c17(&tier, seed, &mut out),
         "c19" => conc::run_c19(&tier, seed, &mut out),
         "apiorder" => apiorder::run_apiorder(&mut out),
+        "unixapi" => apiorder::run_unixapi(&mut out),
         // re-evaluate given cases (corpus / replay / shrinking): stdin lines `cmd \t arg [\t ...]`
         "eval" => {
             let stdin = std::io::stdin();
